@@ -7,6 +7,8 @@ use std::io::{Cursor, Read, Write};
 use crate::{hash::Hash, BSVErrors, ExtendedPrivateKey, PublicKey};
 use byteorder::{BigEndian, ReadBytesExt, WriteBytesExt};
 use getrandom::*;
+#[cfg(bsv_verif)]
+use crate::verif_hooks::getrandom;
 
 pub struct ExtendedPublicKey {
     public_key: PublicKey,
